@@ -20,11 +20,13 @@ RULE = (
     "extension, plus every style through its own file extension: annotate three times with identical arguments. Then seeded "
     "histories (N = 2..5 identical runs) over copyright prefix, --year / --exclude-year / default year from the simulated clock, "
     "several holders and licences, contributors, --merge-copyrights, --skip-existing, --force-dot-license, custom and commented "
-    "templates, and headers longer than 4 KiB (60 holders); the clock advances between runs by seconds to months inside one calendar year. --no-replace is excluded (documented "
+    "templates, headers longer than 4 KiB (60 holders), several files in one invocation after per-file set-up commands "
+    "(different holders, case variants of one name, mixed prefixes before --merge-copyrights), and - in a fifth to a half of the "
+    "histories - a fresh interpreter with another PYTHONHASHSEED for every command, as separate invocations have; the clock advances between runs by seconds to months inside one calendar year. --no-replace is excluded (documented "
     "as additive). Non-trivial = at least two runs executed with exit 0; distinct = distinct plan digests"
 )
 EXPECTED_PROBES = ["annotate.write", "header.existing_header_merged", "header.shebang_kept", "annotate.skip_existing",
-                   "annotate.force_dot_license_touch"]
+                   "annotate.force_dot_license"]
 SHRINK_CONTENT = True
 
 
@@ -36,7 +38,7 @@ def _case(seed, style, opts, bodykind, name, n, clocks, hashseed=0, extra_files=
     files = [{"path": name, "content": content}] + list(extra_files)
     steps = []
     for k in range(n):
-        steps.append({"argv": ["--no-multiprocessing"] + A.argv_of(opts, [name]), "clock": clocks[k]})
+        steps.append({"argv": ["--no-multiprocessing"] + A.argv_of(opts, [name]), "clock": clocks[k], "phase": "repeat"})
     return {"prop": PROP, "seed": seed, "world": {"files": files}, "style": style, "opts": opts, "body": bodykind, "name": name,
             "variants": [{"hashseed": hashseed, "steps": steps}]}
 
@@ -74,6 +76,8 @@ def prelude_cases(tier, verif_seed):
 
 def gen_case(seed, tier, index=0):
     rng = Rng(seed, "c10")
+    if rng.chance(0.35):
+        return _gen_multi(seed, rng)
     style = rng.pick(G.STYLE_NAMES)
     opts = {"holders": rng.sample(A.SAFE_HOLDERS, rng.randint(0, 3)), "licenses": rng.sample(A.LICENSES, rng.randint(0, 2))}
     if rng.chance(0.3):
@@ -118,62 +122,143 @@ def gen_case(seed, tier, index=0):
         opts["force_dot_license"] = True
         opts.pop("multi_line", None)
     n = rng.randint(2, 5)
+    clocks = _clocks(rng, n)
+    case = _case(seed, style, opts, rng.pick(A.BODY_KINDS), name, n, clocks, hashseed=rng.randrange(8), extra_files=extra)
+    if rng.chance(0.2):
+        _cross_seed(case, rng)
+    return case
+
+
+def _clocks(rng, n):
+    import datetime
     year = rng.pick([2023, 2024, 2031])
     secs = sorted(rng.sample(range(0, 360 * 86400), n))
-    import datetime
-    clocks = [(datetime.datetime(year, 1, 1) + datetime.timedelta(seconds=s)).isoformat(timespec="seconds") for s in secs]
-    return _case(seed, style, opts, rng.pick(A.BODY_KINDS), name, n, clocks, hashseed=rng.randrange(8), extra_files=extra)
+    return [(datetime.datetime(year, 1, 1) + datetime.timedelta(seconds=s)).isoformat(timespec="seconds") for s in secs]
+
+
+def _cross_seed(case, rng):
+    """Every command of the history runs in a fresh interpreter with its own string-hash seed, as separate
+    invocations of the real CLI do (PYTHONHASHSEED is random per process by default)."""
+    seeds = rng.sample(range(8), 8)
+    for k, st in enumerate(case["variants"][0]["steps"]):
+        st["hashseed"] = seeds[k % 8]
+    case["cross_seed"] = True
+
+
+CASE_PAIRS = [("jane doe", "Jane Doe"), ("acme corp.", "ACME Corp."), ("john roe", "John Roe")]
+
+
+def _gen_multi(seed, rng):
+    """Several files, each first annotated on its own (set-up steps, not judged), then the same command over all
+    of them N times. The tool iterates a set of paths, so the processing order follows the hash seed."""
+    k = rng.randint(2, 4)
+    styles = [rng.pick(["python", "c", "cpp", "html", "tex", "haskell", "jinja", "julia", "lisp"]) for _ in range(k)]
+    names = [f"d{i}/m{i}{G.STYLES[styles[i]][7]}" for i in range(k)]
+    files = [{"path": n, "content": A.body(styles[i], rng.pick(["code", "empty", "comment"]))} for i, n in enumerate(names)]
+    if rng.chance(0.3):
+        names.append("d9/data.json")
+        files.append({"path": "d9/data.json", "content": "{}\n"})
+    steps = []
+    clocks = _clocks(rng, 12)
+    flavour = rng.pick(["holders", "holders", "case-variants", "merge-tie", "plain"])
+    ci = 0
+    if flavour != "plain":
+        for i, n in enumerate(names):
+            if not rng.chance(0.8):
+                continue
+            so = {"holders": [A.SAFE_HOLDERS[i % len(A.SAFE_HOLDERS)]], "licenses": rng.sample(A.LICENSES[:4], rng.randint(0, 1)), "years": ["2019"]}
+            if flavour == "case-variants":
+                so["holders"] = [CASE_PAIRS[i % 3][0]]
+                so["contributors"] = [CASE_PAIRS[(i + 1) % 3][0]]
+            if flavour == "merge-tie":
+                so["prefix"] = rng.pick(["string", "string-c", "symbol", "spdx-symbol"])
+                so["years"] = ["2020"]
+            steps.append({"argv": ["--no-multiprocessing"] + A.argv_of(so, [n]), "clock": clocks[ci], "phase": "setup"})
+            ci += 1
+    opts = {"holders": rng.sample(A.SAFE_HOLDERS, rng.randint(0, 2)), "licenses": rng.sample(A.LICENSES[:5], rng.randint(1, 2)), "years": ["2020"]}
+    if flavour == "case-variants":
+        opts["holders"] = [p[1] for p in CASE_PAIRS[:2]]
+        opts["contributors"] = [CASE_PAIRS[2][1], CASE_PAIRS[0][1]]
+    if flavour == "merge-tie":
+        opts["holders"] = [A.SAFE_HOLDERS[0], A.SAFE_HOLDERS[1]]
+        opts["merge_copyrights"] = True
+    if rng.chance(0.2):
+        opts["merge_copyrights"] = True
+    n = rng.randint(2, 4)
+    order = list(names)
+    rng.shuffle(order)
+    for j in range(n):
+        steps.append({"argv": ["--no-multiprocessing"] + A.argv_of(opts, order), "clock": clocks[ci + j], "phase": "repeat"})
+    case = {"prop": PROP, "seed": seed, "world": {"files": files}, "style": styles[0], "opts": opts, "body": "multi-file:" + flavour,
+            "name": names[0], "names": names, "variants": [{"hashseed": rng.randrange(8), "steps": steps}]}
+    if rng.chance(0.6):
+        _cross_seed(case, rng)
+    return case
 
 
 def oracle(case, results):
     vs = []
-    opts, name = case["opts"], case["name"]
+    opts = case["opts"]
+    names = case.get("names") or [case["name"]]
     steps = case["variants"][0]["steps"]
     recs = results[0]["records"]
-    target = name + ".license" if opts.get("force_dot_license") else name
+    tracked = [p for n in names for p in (n, n + ".license")]
     orig = {f["path"]: f.get("content", "") for f in case["world"]["files"]}
-    cur = orig.get(target)
+    cur = {p: orig.get(p) for p in tracked}
     mode = "multi" if opts.get("multi_line") else "default"
-    tag = f"{case['style']}/{mode}/{case['body']}"
+    tag = f"{case['style']}/{mode}/{case['body']}" + ("/cross-seed" if case.get("cross_seed") else "")
     first = None
+    nrep = 0
     for k, (st, rec) in enumerate(zip(steps, recs)):
         if rec.get("exc"):
             vs.append({"sig": f"C10/crashed/{rec['exc']['type']}/{tag}", "detail": rec["exc"]["tb"][-500:]})
             return vs
-        if rec.get("exit") != 0:
-            if rec.get("exit") == 2 and k == 0:
-                return vs  # the combination is refused as a usage error: nothing to re-run
-            vs.append({"sig": f"C10/nonzero-exit/run{min(k + 1, 2)}/{tag}", "detail": f"run {k + 1}: exit={rec.get('exit')} stdout={rec.get('stdout', '')[-300:]} argv={st['argv']}"})
-            return vs
-        d = (rec.get("diff") or {}).get(target)
-        if d is not None:
-            cur = d.get("content") if d.get("after") else None
-        others = sorted(l for l, dd in (rec.get("diff") or {}).items() if l not in (target, ".", name) and not (dd.get("before") and dd["before"][0] == "d"))
-        if others and k > 0:
-            vs.append({"sig": f"C10/other-files-changed/{tag}", "detail": str(others)})
-        if k == 0:
-            first = cur
+        for p in tracked:
+            d = (rec.get("diff") or {}).get(p)
+            if d is not None:
+                cur[p] = d.get("content") if d.get("after") else None
+        if st.get("phase") == "setup":
+            if rec.get("exit") != 0:
+                return vs  # the set-up did not work out: nothing to judge
             continue
-        if cur != first:
-            vs.append({"sig": f"C10/not-idempotent/{tag}",
-                       "detail": f"run {k + 1} changed {target} although the arguments are identical (argv={st['argv']}).\n--- after run 1:\n{first!r:.700}\n--- after run {k + 1}:\n{cur!r:.900}"})
+        nrep += 1
+        if rec.get("exit") != 0:
+            if rec.get("exit") == 2 and nrep == 1:
+                return vs  # the combination is refused as a usage error: nothing to re-run
+            vs.append({"sig": f"C10/nonzero-exit/run{min(nrep, 2)}/{tag}", "detail": f"run {nrep}: exit={rec.get('exit')} stdout={rec.get('stdout', '')[-300:]} argv={st['argv']}"})
             return vs
-    # exactly one header block: every requested line occurs once
-    if cur is not None and len(steps) >= 2 and not opts.get("skip_existing"):
-        req = A.requested(opts, steps[0].get("clock") or "2024")
-        text = cur.replace("\r\n", "\n")
-        for lic in req["licenses"]:
-            c = sum(1 for line in text.split("\n") if "SPDX-License-Identifier: " in line
-                    and line.split("SPDX-License-Identifier: ", 1)[1].strip() == lic)
-            if c > 1:
-                vs.append({"sig": f"C10/stacked-header/{tag}", "detail": f"'SPDX-License-Identifier: {lic}' occurs {c} times after {len(steps)} identical runs:\n{cur!r:.900}"})
-                break
+        others = sorted(l for l, dd in (rec.get("diff") or {}).items() if l not in tracked and not (dd.get("before") and dd["before"][0] == "d") and not (dd.get("after") and dd["after"][0] == "d"))
+        if others and nrep > 1:
+            vs.append({"sig": f"C10/other-files-changed/{tag}", "detail": str(others)})
+        if nrep == 1:
+            first = dict(cur)
+            continue
+        changed = [p for p in tracked if cur[p] != first[p]]
+        if changed:
+            p = changed[0]
+            vs.append({"sig": f"C10/not-idempotent/{tag}",
+                       "detail": f"run {nrep} changed {changed} although the arguments are identical (argv={st['argv']}; hash seeds of the runs: {[s.get('hashseed', 'executor') for s in steps if s.get('phase') != 'setup']}).\n--- {p} after run 1:\n{first[p]!r:.700}\n--- after run {nrep}:\n{cur[p]!r:.900}"})
+            return vs
+    # exactly one header block: every requested licence line occurs once
+    if nrep >= 2 and not opts.get("skip_existing"):
+        req = A.requested(opts, "2024")
+        for name in names:
+            target = name + ".license" if cur.get(name + ".license") is not None else name
+            text = (cur.get(target) or "").replace("\r\n", "\n")
+            for lic in req["licenses"]:
+                c = sum(1 for line in text.split("\n") if "SPDX-License-Identifier: " in line
+                        and line.split("SPDX-License-Identifier: ", 1)[1].strip() == lic)
+                if c > 1:
+                    vs.append({"sig": f"C10/stacked-header/{tag}", "detail": f"'SPDX-License-Identifier: {lic}' occurs {c} times in {target} after {nrep} identical runs:\n{text!r:.900}"})
+                    return vs
     return vs
 
 
 def account(case, results, cov):
     recs = results[0]["records"]
     ok = sum(1 for r in recs if r.get("exit") == 0)
+    cov.bump("histories_multi_file", 1 if case.get("names") else 0)
+    cov.bump("histories_with_a_new_hash_seed_per_command", 1 if case.get("cross_seed") else 0)
     if ok >= 2:
         cov.nontrivial.add(digest([case["world"], case["variants"]]))
     cov.bump("style." + case["style"])
@@ -182,6 +267,6 @@ def account(case, results, cov):
     import datetime
     for a, b in zip(steps, steps[1:]):
         ta, tb = datetime.datetime.fromisoformat(a["clock"]), datetime.datetime.fromisoformat(b["clock"])
-        cov.sim_seconds += int((tb - ta).total_seconds())
+        cov.sim_seconds += max(0, int((tb - ta).total_seconds()))
     if len(cov.samples) < 3 and case["seed"] > 30_000:
         cov.samples.append({"seed": case["seed"], "file": case["name"], "body": case["body"], "argv": steps[0]["argv"], "clocks": [s["clock"] for s in steps]})
